@@ -38,6 +38,7 @@ use self::value::SourcedValue;
 use self::value::Str;
 use self::value::Value;
 
+use crate::lexer::InterpSlot;
 use crate::lexer::Lexer;
 use crate::parser::ExprParser;
 
@@ -500,7 +501,6 @@ fn eval_expr(
                         scopes,
                         s,
                         slots,
-                        (line, col),
                     )
                     .context(InterpolateStringFailed)?;
                 Ok(value::new_str_from_string(v))
@@ -1530,14 +1530,12 @@ fn interpolate_string(
     context: &EvaluationContext,
     scopes: &mut ScopeStack,
     s: &str,
-    interpolation_slots: &Vec<(usize, usize)>,
-    loc: (&usize, &usize),
+    interpolation_slots: &Vec<InterpSlot>,
 )
     -> Result<String>
 {
-    let (line, col) = loc;
-    let new_loc_err = |source, col| {
-        Err(Error::AtLoc{source: Box::new(source), line: *line, col})
+    let new_loc_err = |source, (line, col)| {
+        Err(Error::AtLoc{source: Box::new(source), line, col})
     };
 
     let parser = ExprParser::new();
@@ -1547,14 +1545,12 @@ fn interpolate_string(
     let mut last_slot_end = 0;
 
     for cur_slot in interpolation_slots {
-        let (cur_slot_start, cur_slot_end) = cur_slot;
+        let (cur_slot_start, cur_slot_end, slot_loc) = cur_slot;
         result.push(s[last_slot_end .. *cur_slot_start].to_string());
 
         // We shorten the slot to skip the delimiters (`${` at the start and
         // `}` at the end).
         let directive = &s[(cur_slot_start+2) .. (cur_slot_end-1)];
-
-        let slot_col = col + s[.. *cur_slot_start].chars().count() + 4;
 
         let mut lexer = Lexer::new(directive);
 
@@ -1566,7 +1562,7 @@ fn interpolate_string(
 
                     return new_loc_err(
                         Error::InterpolateStringParseFailed{source_str: msg},
-                        slot_col,
+                        *slot_loc,
                     );
                 },
             };
@@ -1580,7 +1576,7 @@ fn interpolate_string(
                     Error::InterpolateStringEvalExprFailed{
                         source: Box::new(e),
                     },
-                    slot_col,
+                    *slot_loc,
                 ),
             };
 
@@ -1593,14 +1589,14 @@ fn interpolate_string(
                             source,
                             descr: "interpolated slot".to_string(),
                         },
-                        slot_col,
+                        *slot_loc,
                     ),
                 }
             },
             value => {
                 return new_loc_err(
                     Error::InterpolatedValueNotString{value},
-                    slot_col,
+                    *slot_loc,
                 );
             },
         }
